@@ -173,7 +173,10 @@ impl LookaheadDFA {
             RefCell::new(BTreeMap::new());
         // Starting state is per definition always 0!
         state_mapping.borrow_mut().insert(0, 0);
-        let result_union = RefCell::new(self);
+        let mut result = self;
+        // The united automaton needs as many lookahead tokens as the deeper of both
+        result.k = std::cmp::max(result.k, other.k);
+        let result_union = RefCell::new(result);
 
         loop {
             let mut changed = false;
